@@ -575,9 +575,17 @@ func execute(in Input) (string, string, float64) {
 					p2 = fmt.Sprint(r)
 				}
 			}()
-			enc, e2 = wkb.Encode(g, wkb.NDR)
+			// both byte orders (and the hex codec for hex inputs): the second must
+			// reproduce the geometry as well
+			enc, e2 = wkb.Encode(g, wkb.XDR)
 			if e2 == nil {
 				g2, e2 = wkb.Decode(enc)
+			}
+			if e2 == nil && geomgen.Diff(g, g2, true) == "" {
+				enc, e2 = wkb.Encode(g, wkb.NDR)
+				if e2 == nil {
+					g2, e2 = wkb.Decode(enc)
+				}
 			}
 		}()
 	default:
@@ -693,7 +701,7 @@ func main() {
 	}
 	os.Setenv("VERIF_TIER", tier)
 	r := report.New("C07", tier, "fault_enumeration")
-	r.Rule = "E4: for every valid WKB encoding of the bounded structure-tree corpus (both byte orders): every prefix, every single-bit flip, every count field <- {0,n-1,n+1,2^8,2^16,2^24,2^28,2^31,2^32-1}, every inflated count combined with a truncation at every later offset (double fault), every type code <- 25 foreign values and 1..7, every byte-order flag <- {flipped,2,0xff}; the structural faults again through the hex decoder plus odd length / non-hex character at every position; all byte strings of length <=2, all (order byte, type code) headers, nine-byte inflated-count messages, 31..300 real members behind an inflated count, collections nested to depth 1..64,128,1024,7281; GeoJSON: 12 type spellings x all JSON values of depth<=3(4) over 6 leaves, every prefix of every valid document, deep nesting, 11 large irregular coordinate shapes of 30..60 KiB (one very long position among thousands, thousands of empty positions, square shapes) per type, typed Geometry values and nil. Oracle: no panic, exactly one of geometry/error, bytes allocated (exact TotalAlloc delta in a single-goroutine worker) <= 256*len+64KiB, success => re-encode/decode fixed point. Non-trivial = every faulted (non-valid-corpus) input."
+	r.Rule = "E4: for every valid WKB encoding of the bounded structure-tree corpus (both byte orders): every prefix, every single-bit flip, every count field <- {0,n-1,n+1,2^8,2^16,2^24,2^28,2^31,2^32-1}, every inflated count combined with a truncation at every later offset (double fault), every type code <- 25 foreign values and 1..7, every byte-order flag <- {flipped,2,0xff}; the structural faults again through the hex decoder plus odd length / non-hex character at every position; all byte strings of length <=2, all (order byte, type code) headers, nine-byte inflated-count messages, 31..300 real members behind an inflated count, collections nested to depth 1..64,128,1024,7281; GeoJSON: 12 type spellings x all JSON values of depth<=3(4) over 6 leaves, every prefix of every valid document, deep nesting, 11 large irregular coordinate shapes of 30..60 KiB (one very long position among thousands, thousands of empty positions, square shapes) per type, typed Geometry values and nil. Oracle: no panic, exactly one of geometry/error, bytes allocated (exact TotalAlloc delta in a single-goroutine worker) <= 256*len+64KiB, success => re-encode (both byte orders) / decode fixed point. Non-trivial = every faulted (non-valid-corpus) input."
 	r.Assumptions = []string{"single faults (plus the count+truncation double fault); inputs are derived from the corpus or from the listed synthetic families", "allocation bound constants 256 B/byte + 64 KiB chosen with >= 4x head-room over the valid corpus (max ratio reported as max_alloc_ratio)"}
 	sum := fault.Sweep(r, 16, 4<<20, 90*time.Second, func(idx int64) (string, interface{}) {
 		var sig string
